@@ -1,12 +1,27 @@
-import PermutaModel.Lemmas.SContains
-import PermutaModel.Model.C02
+import PermutaModel.Lemmas.C02Iter
 
 /-!
 # C02 — `Av(basis)` reports exactly the avoiders, independent of query history
 
-Property theorems (helpers in `Lemmas/`).
+Property theorems only (helpers in `Lemmas/C02*.lean`, `Lemmas/SContains.lean`).  All statements are
+about the definitions of `Model/C02.lean` (and `Model/C07.lean` for the traces) that the driver executes.
+
+* `Spec.C02.level b n` / `Spec.C02.meshLevel b n` – "all permutations of length `n`, filtered by
+  avoidance" (no cache, no insertion encoding);
+* `C02L.ValidBasis b` – `b ≠ []`, every element a permutation of length `≥ 1` (what `Basis(...)` +
+  the `ValueError` guard of `Av.__new__` give); `C02L.ValidMeshBasis b` – the empty permutation avoids
+  every mesh pattern of `b`;
+* `C02L.CacheInv b c` – the cache invariant: every level has the spec keys (as a `List.Perm`, hence
+  duplicate-free), the last level's values are lists being filled, the level before it holds exactly
+  the valid end-insertions (`C02L.SpotsOK`, with the level-0 quirk `{(): [0]}` carried honestly);
+  `C02L.ObjInv o` – the same for an object with either kind of basis; `C02L.ObjExt o w` – `w` is a
+  later state of `o` (same basis, invariant, no level lost, keys of the old levels unchanged).
 -/
+open Model Model.C02 Model.C07 C02L
+
 namespace C02
+
+/-! ## A1/A2  the combinatorial core -/
 
 /-- **Insertion criterion** (the combinatorial core of `valid_insertions`): for `π` avoiding `B`
     whose elements have length `≤ m`, the extension `π·v` avoids `B` iff it is not itself
@@ -18,5 +33,381 @@ theorem insertion_criterion (B : List (List Nat)) (m : Nat) (π : List Nat) (v :
       (∀ b ∈ B, ¬ OIso b (π ++ [v])) ∧
       (∀ i, π.length - m ≤ i → i < π.length → Avoids B ((π ++ [v]).eraseIdx i)) :=
   _root_.insertion_criterion B m π v hm hπ
+
+/-- the criterion for the model's own operations and the executable avoidance test: for a class
+    member `π` and `v ≤ |π|`, `π.insert(n+1, v)` is in the class iff it is not a basis element and,
+    for every window position `i`, the end-insertion of the re-indexed value into `π.remove(i)` is
+    in the class -/
+theorem insertion_criterion_model {b : List NSeq} (hb : ValidBasis b) {π : NSeq} (h : InAv b π) {v : Nat}
+    (hv : v ≤ π.length) :
+    InAv b (appendValue π v) ↔
+      appendValue π v ∉ b ∧
+      (∀ i, π.length - maxSize b ≤ i → i < π.length →
+        InAv b (appendValue (removeAt π i) (shiftVal v (π.getD i 0)))) :=
+  InAv_appendValue_iff hb h hv
+
+/-- **`acceptable` is the re-indexing** (permset.py:164-165): deleting position `i` of `π·v` gives
+    `(del_i π)·v'` with `v' = v` if `v ≤ π[i]` else `v-1`, and `v` is in the `acceptable` list built
+    from `spots` iff `v'` is a spot -/
+theorem acceptable_correct (π : NSeq) (v i : Nat) (hi : i < π.length) (spots : List Nat) :
+    removeAt (appendValue π v) i = appendValue (removeAt π i) (shiftVal v (π.getD i 0)) ∧
+    (v ∈ acceptable spots (π.getD i 0) ↔ shiftVal v (π.getD i 0) ∈ spots) :=
+  ⟨removeAt_appendValue hi, mem_acceptable spots _ v⟩
+
+/-! ## A3  the cache invariant -/
+
+/-- the initial cache `[{(): [0]}]` satisfies the invariant -/
+theorem cacheInv_fresh {b : List NSeq} (hb : ValidBasis b) : CacheInv b (freshObj (.classical b)).cache :=
+  CacheInv.fresh hb
+
+/-- levels under the invariant are duplicate-free -/
+theorem cacheInv_keys_nodup {b : List NSeq} {c : List Level} (h : CacheInv b c) (i : Nat) (hi : i < c.length) :
+    ((c.getD i []).keys).Nodup := h.keys_nodup hi
+
+/-- **T1** one round of `_ensure_level_classical_pattern_basis` succeeds (no `KeyError`, no
+    `AssertionError`), appends exactly the next level, keeps the invariant and the keys of all
+    existing levels -/
+theorem buildOne_correct {b : List NSeq} (hb : ValidBasis b) {c : List Level} (h : CacheInv b c) :
+    ∃ c', buildOne b c = .ok c' ∧ CacheInv b c' ∧ c'.length = c.length + 1 ∧
+      ∀ i, i < c.length → (c'.getD i []).keys = (c.getD i []).keys :=
+  C02L.buildOne_correct hb h
+
+/-- **T2** `_ensure_level(n)` for a classical basis and **every** `n` (also `n < len(cache)`: no-op):
+    succeeds, keeps the invariant, makes level `n` available, loses no level and changes no key -/
+theorem ensureLevel_correct {b : List NSeq} (hb : ValidBasis b) (o : AvObj) (hob : o.basis = .classical b)
+    (h : CacheInv b o.cache) (n : Nat) :
+    ∃ o', ensureLevel o n = .ok o' ∧ o'.basis = o.basis ∧ CacheInv b o'.cache ∧ n < o'.cache.length ∧
+      o.cache.length ≤ o'.cache.length ∧
+      ∀ i, i < o.cache.length → (o'.cache.getD i []).keys = (o.cache.getD i []).keys := by
+  obtain ⟨o', _, h1, _, h3, h4, h5, _, _⟩ := ensureLevel_classical hb o hob h n
+  exact ⟨o', h1, h3, h4.inv, h5, h4.len, h4.keys⟩
+
+/-- **T3** (trace form used by C07): every intermediate state of `_ensure_level(n)` - after each
+    appended level and after each compaction write - satisfies the full invariant (in particular every
+    level has the spec keys), has lost no level, and the last state is the result of `ensureLevel` -/
+theorem ensureTrace_correct {b : List NSeq} (hb : ValidBasis b) (o : AvObj) (hob : o.basis = .classical b)
+    (h : CacheInv b o.cache) (n : Nat) :
+    ∃ o' tr, ensureLevel o n = .ok o' ∧ ensureTrace o n = .ok tr ∧ tr.getLastD o = o' ∧
+      ∀ w ∈ tr, w.basis = o.basis ∧ CacheInv b w.cache ∧ o.cache.length ≤ w.cache.length ∧
+        (∀ i, i < w.cache.length → ((w.cache.getD i []).keys).Perm (Spec.C02.level b i)) ∧
+        ∀ i, i < o.cache.length → (w.cache.getD i []).keys = (o.cache.getD i []).keys := by
+  obtain ⟨o', tr, h1, h2, _, _, _, h6, h7⟩ := ensureLevel_classical hb o hob h n
+  exact ⟨o', tr, h1, h2, h6, fun w hw =>
+    ⟨(h7 w hw).1, (h7 w hw).2.inv, (h7 w hw).2.len, (h7 w hw).2.inv.keys, (h7 w hw).2.keys⟩⟩
+
+/-- **T4** the same three statements for a mesh basis (levels are filters of `Perm.of_length`) -/
+theorem ensureLevel_correct_mesh {b : List Mesh} (o : AvObj) (hob : o.basis = .mesh b)
+    (h : MeshInv b o.cache) (n : Nat) :
+    ∃ o' tr, ensureLevel o n = .ok o' ∧ ensureTrace o n = .ok tr ∧ tr.getLastD o = o' ∧
+      o'.basis = o.basis ∧ MeshInv b o'.cache ∧ n < o'.cache.length ∧ o.cache.length ≤ o'.cache.length ∧
+      (o'.cache.getD n []).keys = Spec.C02.meshLevel b n ∧
+      ∀ w ∈ tr, w.basis = o.basis ∧ MeshInv b w.cache ∧ o.cache.length ≤ w.cache.length ∧
+        ∀ i, i < w.cache.length → (w.cache.getD i []).keys = Spec.C02.meshLevel b i := by
+  obtain ⟨o', tr, h1, h2, h3, h4, h5, h6, h7⟩ := ensureLevel_mesh o hob h n
+  exact ⟨o', tr, h1, h2, h6, h3, h4.inv, h5, h4.len, h4.inv.keys n h5, fun w hw =>
+    ⟨(h7 w hw).1, (h7 w hw).2.inv, (h7 w hw).2.len, (h7 w hw).2.inv.keys⟩⟩
+
+/-- the initial cache of a mesh-basis class satisfies the mesh invariant -/
+theorem meshInv_fresh {b : List Mesh} (hb : ValidMeshBasis b) : MeshInv b (freshObj (.mesh b)).cache :=
+  MeshInv.fresh hb
+
+/-- **T2–T4 in one statement** (either kind of basis): `_ensure_level(n)` succeeds from every state
+    satisfying the object invariant, the result and every state of the trace are later states of `o` -/
+theorem ensureLevel_correct_obj (o : AvObj) (h : ObjInv o) (n : Nat) :
+    ∃ o' tr, ensureLevel o n = .ok o' ∧ ensureTrace o n = .ok tr ∧ ObjExt o o' ∧
+      n < o'.cache.length ∧ tr.getLastD o = o' ∧ ∀ w ∈ tr, ObjExt o w :=
+  C02L.ensureLevel_correct o h n
+
+/-- `_get_level(n)` returns the spec level (as a `List.Perm`: nothing omitted, nothing repeated) -/
+theorem getLevel_spec (o : AvObj) (h : ObjInv o) (n : Nat) :
+    ∃ o' ks, getLevel o n = .ok (o', ks) ∧ ObjExt o o' ∧ ks.Perm (specLevel o.basis n) :=
+  C02L.getLevel_spec o h n
+
+/-! ## A4  history independence -/
+
+/-- **history independence**: whatever levels were requested before (any list `hist`, any order,
+    repetitions allowed) on a fresh class object, every one of these requests and the next request
+    `n` succeed and return the spec level -/
+theorem levels_history_independent (b : BasisV) (hb : ValidBasisV b) (hist : List Nat) (n : Nat) :
+    ∃ o₁ outs o₂ ks, runLevels (freshObj b) hist = .ok (o₁, outs) ∧
+      List.Forall₂ (fun m out => out.Perm (specLevel b m)) hist outs ∧
+      getLevel o₁ n = .ok (o₂, ks) ∧ ks.Perm (specLevel b n) := by
+  obtain ⟨o₁, outs, h1, hext, hall⟩ := runLevels_spec hist (freshObj b) (ObjInv.fresh hb)
+  obtain ⟨o₂, ks, h2, _, hks⟩ := C02L.getLevel_spec o₁ hext.inv n
+  rw [hext.basis] at hks
+  exact ⟨o₁, outs, o₂, ks, h1, hall, h2, hks⟩
+
+/-- the same from an arbitrary reachable state: two objects of the same class that both satisfy the
+    invariant (e.g. one fresh after `clear_cache`, one with a long history and compacted levels)
+    answer every request with the same set of permutations -/
+theorem levels_state_independent (o o' : AvObj) (h : ObjInv o) (h' : ObjInv o') (hb : o.basis = o'.basis)
+    (n : Nat) :
+    ∃ o₁ ks o₁' ks', getLevel o n = .ok (o₁, ks) ∧ getLevel o' n = .ok (o₁', ks') ∧ ks.Perm ks' := by
+  obtain ⟨o₁, ks, h1, _, hks⟩ := C02L.getLevel_spec o h n
+  obtain ⟨o₁', ks', h1', _, hks'⟩ := C02L.getLevel_spec o' h' n
+  rw [hb] at hks
+  exact ⟨o₁, ks, o₁', ks', h1, h1', hks.trans hks'.symm⟩
+
+/-! ## T5  no omission, no repetition, membership, count - in the property's wording -/
+
+/-- the spec level in the wording of the property: `σ` is listed iff it is a permutation of length
+    `n` containing no basis element (`Contains` = index-tuple occurrences of `Spec/Basic`) -/
+theorem mem_level_iff {b : List NSeq} (hb : ValidBasis b) (n : Nat) (σ : NSeq) :
+    σ ∈ Spec.C02.level b n ↔ IsPerm σ ∧ σ.length = n ∧ ∀ p ∈ b, ¬ Contains σ p := by
+  rw [mem_level]
+  unfold InAv
+  constructor
+  · rintro ⟨⟨h1, h2⟩, h3⟩
+    exact ⟨h1, h3, (C01.avoidsAll_iff σ b h1 hb.perm).mp h2⟩
+  · rintro ⟨h1, h3, h2⟩
+    exact ⟨⟨h1, (C01.avoidsAll_iff σ b h1 hb.perm).mpr h2⟩, h3⟩
+
+/-- sublist-based containment (used in the proofs) is the index-tuple containment of `Spec/Basic` -/
+theorem scontains_iff_contains (σ π : NSeq) : SContains σ π ↔ Contains σ π := SContains_iff_Contains σ π
+
+/-- **no omission / no repetition / membership / count** for a class with classical basis, after any
+    history: level `n` as returned by `_get_level` is duplicate-free, contains exactly the
+    permutations of length `n` avoiding the basis, and its size is the size of the spec level -/
+theorem getLevel_exact {b : List NSeq} (hb : ValidBasis b) (hist : List Nat) (n : Nat) :
+    ∃ o₁ outs o₂ ks, runLevels (freshObj (.classical b)) hist = .ok (o₁, outs) ∧
+      getLevel o₁ n = .ok (o₂, ks) ∧ ks.Nodup ∧ ks.length = (Spec.C02.level b n).length ∧
+      ∀ σ, σ ∈ ks ↔ IsPerm σ ∧ σ.length = n ∧ ∀ p ∈ b, ¬ Contains σ p := by
+  obtain ⟨o₁, outs, o₂, ks, h1, _, h2, hks⟩ := levels_history_independent (.classical b) hb hist n
+  refine ⟨o₁, outs, o₂, ks, h1, h2, hks.nodup_iff.mpr (level_nodup b n), hks.length_eq, fun σ => ?_⟩
+  rw [hks.mem_iff]; exact mem_level_iff hb n σ
+
+/-- the same for a mesh basis (avoidance = the executable mesh containment test of C04/C01) -/
+theorem getLevel_exact_mesh {b : List Mesh} (hb : ValidMeshBasis b) (hist : List Nat) (n : Nat) :
+    ∃ o₁ outs o₂ ks, runLevels (freshObj (.mesh b)) hist = .ok (o₁, outs) ∧
+      getLevel o₁ n = .ok (o₂, ks) ∧ ks.Nodup ∧ ks.length = (Spec.C02.meshLevel b n).length ∧
+      ∀ σ, σ ∈ ks ↔ IsPerm σ ∧ σ.length = n ∧ ∀ m ∈ b, containsMesh σ m = false := by
+  obtain ⟨o₁, outs, o₂, ks, h1, _, h2, hks⟩ := levels_history_independent (.mesh b) hb hist n
+  have hks' : ks.Perm (Spec.C02.meshLevel b n) := hks
+  refine ⟨o₁, outs, o₂, ks, h1, h2, hks'.nodup_iff.mpr ((C09.permsLex_spec n).2.2.1.filter _),
+    hks'.length_eq, fun σ => ?_⟩
+  rw [hks'.mem_iff]
+  unfold Spec.C02.meshLevel
+  rw [List.mem_filter, (C09.permsLex_spec n).1 σ, List.all_eq_true]
+  simp only [Bool.not_eq_true', and_assoc]
+
+/-- the class is closed downwards: if level `n` is empty so is level `n+1` (justifies the early stop
+    of `Av._all` / `first`) -/
+theorem level_empty_succ {b : List NSeq} (hb : ValidBasis b) (n : Nat) (h : Spec.C02.level b n = []) :
+    Spec.C02.level b (n + 1) = [] := by
+  apply List.eq_nil_iff_forall_not_mem.mpr
+  intro σ hσ
+  obtain ⟨π, hπ, _⟩ := (mem_level_succ hb).mp hσ
+  rw [h] at hπ; simp at hπ
+
+/-! ## A4/A5/A6  process level: arbitrary operation sequences
+
+`C02L.POp` lists the operations of the line protocol that touch the process state (`Av(basis)`,
+`from_iterable`, `clear_cache`, level queries, `up_to_length`, `enumeration`, `is_subclass`, taking
+items from an arbitrary - possibly half-consumed - iterator); `POp.run` executes one on the `Proc`
+state exactly as the driver does (state unchanged on an exception); `runOps` folds a list. -/
+
+/-- every reachable process state satisfies the invariant: whatever was done before - queries in any
+    order, other classes created, iterators partially consumed, the class cache cleared - every
+    object ever created still satisfies its cache invariant -/
+theorem proc_invariant (ops : List POp) (hwf : ∀ op ∈ ops, op.WF) : ProcInv (runOps Proc.init ops) :=
+  runOps_inv ops ProcInv.init hwf
+
+/-- **`Av` refines the specification for every finite operation sequence**: let `ops₁` be any
+    history, then `name = Av(b)`, then any history `ops₂` that does not rebind `name` (it may query
+    this and other classes, create other classes, clear the class cache, consume iterators of any
+    class half-way).  Then `of_length(n)`/`count(n)`, `up_to_length(n)` and `enumeration(n)` on `name`
+    succeed and return the spec levels of `b` (lists up to order inside a level, counts exactly). -/
+theorem av_refines_spec (ops₁ ops₂ : List POp) (h₁ : ∀ op ∈ ops₁, op.WF) (h₂ : ∀ op ∈ ops₂, op.WF)
+    (name : String) (b : BasisV) (hb : ValidBasisV b) (hnf : forbiddenB b = false)
+    (hnb : ∀ op ∈ ops₂, ¬ op.binds name) (n : Nat) :
+    (∃ s' ks, (runOps ((POp.new name b).run (runOps Proc.init ops₁)).1 ops₂).level name n = .ok (s', ks) ∧
+        ks.Perm (specLevel b n)) ∧
+    (∃ s' ks, (runOps ((POp.new name b).run (runOps Proc.init ops₁)).1 ops₂).upTo name (n + 1) 0 = .ok (s', ks) ∧
+        ks.Perm ((List.range' 0 (n + 1)).flatMap (specLevel b))) ∧
+    (∃ s', (runOps ((POp.new name b).run (runOps Proc.init ops₁)).1 ops₂).enumeration name (n + 1) 0 =
+        .ok (s', (List.range' 0 (n + 1)).map fun j => (specLevel b j).length)) := by
+  have hi1 := proc_invariant ops₁ h₁
+  have hi2 := run_inv hi1 (.new name b) hb
+  have hb2 := run_new_bound hi1 name hb hnf
+  have hi3 := runOps_inv ops₂ hi2 h₂
+  obtain ⟨id, o, ho, hob⟩ := runOps_bound ops₂ hi2 h₂ hb2 hnb
+  subst hob
+  refine ⟨?_, ?_, ?_⟩
+  · obtain ⟨s', ks, h, _, _, hk⟩ := level_spec hi3 ho n
+    exact ⟨s', ks, h, hk⟩
+  · obtain ⟨s', ks, h, _, _, hk⟩ := upTo_spec (n + 1) 0 hi3 ho
+    exact ⟨s', ks, h, hk⟩
+  · obtain ⟨s', h, _, _⟩ := enumeration_spec (n + 1) 0 hi3 ho
+    exact ⟨s', h⟩
+
+/-- **membership** `σ in Av(B)` after any history, in the property's wording -/
+theorem contains_correct (ops₁ ops₂ : List POp) (h₁ : ∀ op ∈ ops₁, op.WF) (h₂ : ∀ op ∈ ops₂, op.WF)
+    (name : String) (B : List NSeq) (hb : ValidBasis B) (hnb : ∀ op ∈ ops₂, ¬ op.binds name) (σ : NSeq) :
+    ∃ s' ks, (runOps ((POp.new name (.classical B)).run (runOps Proc.init ops₁)).1 ops₂).level name σ.length
+        = .ok (s', ks) ∧
+      (ks.contains σ = true ↔ IsPerm σ ∧ ∀ p ∈ B, ¬ Contains σ p) := by
+  have hnf : forbiddenB (.classical B) = false := by
+    have hne := hb.ne
+    have h1 : B ≠ [[]] := by
+      intro h; have := hb.pos [] (by rw [h]; simp); simp at this
+    cases B with
+    | nil => exact (hne rfl).elim
+    | cons x t => simpa [forbiddenB] using h1
+  obtain ⟨⟨s', ks, h, hk⟩, _, _⟩ := av_refines_spec ops₁ ops₂ h₁ h₂ name (.classical B) hb hnf hnb σ.length
+  refine ⟨s', ks, h, ?_⟩
+  have hk' : ks.Perm (Spec.C02.level B σ.length) := hk
+  rw [List.contains_iff_mem, hk'.mem_iff, mem_level_iff hb]
+  tauto
+
+/-- **`is_subclass` is correct for classical bases** after any history: for `a = Av(B₁)`, `b = Av(B₂)`
+    it succeeds, and answers `True` iff every permutation avoiding `B₁` avoids `B₂` -/
+theorem is_subclass_correct (ops : List POp) (hwf : ∀ op ∈ ops, op.WF) (a b : String) (B₁ B₂ : List NSeq)
+    (ha : Bound (runOps Proc.init ops) a (.classical B₁)) (hb : Bound (runOps Proc.init ops) b (.classical B₂)) :
+    ∃ s' r, (runOps Proc.init ops).isSubclass a b = .ok (s', r) ∧ ProcInv s' ∧
+      (r = true ↔ ∀ σ, IsPerm σ → (∀ p ∈ B₁, ¬ Contains σ p) → (∀ p ∈ B₂, ¬ Contains σ p)) := by
+  have hi := proc_invariant ops hwf
+  obtain ⟨ida, oa, hoa, hba⟩ := ha
+  obtain ⟨idb, ob, hob, hbb⟩ := hb
+  have hva : ValidBasis B₁ := by
+    have := hi.obj (obj?_eq_some hoa); unfold ObjInv at this; rw [hba] at this; exact this.1
+  have hvb : ValidBasis B₂ := by
+    have := hi.obj (obj?_eq_some hob); unfold ObjInv at this; rw [hbb] at this; exact this.1
+  obtain ⟨s', h1, h2, _⟩ := isSubclass_spec hi hoa hob hba hbb
+  exact ⟨s', _, h1, h2, subclass_iff hva hvb.perm⟩
+
+/-- containment is transitive (the fact behind `is_subclass`) -/
+theorem contains_trans {σ τ π : NSeq} (h₁ : Contains σ τ) (h₂ : Contains τ π) : Contains σ π :=
+  (SContains_iff_Contains σ π).mp
+    (SContains_trans ((SContains_iff_Contains σ τ).mpr h₁) ((SContains_iff_Contains τ π).mpr h₂))
+
+/-- **class-cache sharing**: `Av(b)` either raises `ValueError` or binds the name to an object with
+    basis `b` satisfying its invariant - the very object recorded in the class cache if there is one
+    (equal bases share one instance), a fresh one otherwise (e.g. after `clear_cache`); all existing
+    objects - including those no longer reachable through the class cache - are untouched -/
+theorem class_cache_sharing {s : Proc} (h : ProcInv s) (name : String) {b : BasisV} (hb : ValidBasisV b) :
+    s.newClass name b = .error .valueError ∨
+    ∃ s', s.newClass name b = .ok s' ∧ ProcInv s' ∧
+      (∃ id o, s'.obj? name = some (id, o) ∧ o.basis = b ∧
+        (∀ e, s.classCache.find? (·.1 == b) = some e → id = e.2)) ∧
+      (∀ (id : Nat) (o : AvObj), s.objs[id]? = some o → s'.objs[id]? = some o) :=
+  newClass_spec h name hb
+
+/-- `Basis(*patts)` of permutations is rejected by `Av.__new__` (`ValueError`: empty, or `{ε}`) or
+    satisfies the hypotheses `ValidBasis` of all theorems above -/
+theorem basisNew_valid (patts : List NSeq) (hp : ∀ p ∈ patts, IsPerm p) :
+    forbiddenB (.classical (basisNew patts)) = true ∨ ValidBasis (basisNew patts) :=
+  C02L.basisNew_valid patts hp
+
+/-- consuming any iterator (in whatever state) any number of steps keeps every object's invariant
+    and rebinds nothing: iterators still being consumed cannot influence later answers -/
+theorem iterators_harmless {s : Proc} (h : ProcInv s) (it : IterSt) (k : Nat) {s' : Proc} {it' : IterSt}
+    {items : List NSeq} (hr : s.iterTake it k = .ok (s', it', items)) : ProcInv s' ∧ ProcExt s s' :=
+  iterTake_inv k h it hr
+
+/-! ## iterators (`first`, lazily consumed `up_to_length`, `of_length` snapshots)
+
+`C02L.stream lv it` is everything the iterator state `it` will still yield when level `j` is listed as
+`lv j`; `C02L.firstLevels lv k 0` is `Av._all` (levels `0, 1, …` up to the first empty one) cut after
+`k` levels - more levels can never be needed for `k` items. -/
+
+/-- **`first(k)`** on a class in any reachable state: succeeds and yields the first `k` items of
+    "level 0, level 1, … until a level is empty", each level `j` listed as some permutation `lv j` of
+    the spec level -/
+theorem first_correct {s : Proc} (h : ProcInv s) {name : String} {id : Nat} {o : AvObj}
+    (ho : s.obj? name = some (id, o)) (k : Nat) :
+    ∃ s' it' items lv, s.iterTake (.first id k 0 [] false) k = .ok (s', it', items) ∧ ProcInv s' ∧
+      (∀ j, (lv j).Perm (specLevel o.basis j)) ∧ items = (firstLevels lv k 0).take k := by
+  obtain ⟨s', it', items, lv, h1, h2, _, h4, h5⟩ :=
+    iterTake_obj_correct h (obj?_eq_some ho) (.first id k 0 [] false) rfl k
+  refine ⟨s', it', items, lv, h1, h2, h4, ?_⟩
+  rw [h5]; simp [stream, List.take_take]
+
+/-- **lazily consumed `up_to_length(n)`**: taking `k` items from a fresh generator yields the first
+    `k` items of the concatenation of the levels `0 … n` -/
+theorem upTo_iter_correct {s : Proc} (h : ProcInv s) {name : String} {id : Nat} {o : AvObj}
+    (ho : s.obj? name = some (id, o)) (n k : Nat) :
+    ∃ s' it' items lv, s.iterTake (.upTo id 0 n []) k = .ok (s', it', items) ∧ ProcInv s' ∧
+      (∀ j, (lv j).Perm (specLevel o.basis j)) ∧
+      items = ((List.range' 0 (n + 1)).flatMap lv).take k := by
+  obtain ⟨s', it', items, lv, h1, h2, _, h4, h5⟩ :=
+    iterTake_obj_correct h (obj?_eq_some ho) (.upTo id 0 n []) rfl k
+  refine ⟨s', it', items, lv, h1, h2, h4, ?_⟩
+  rw [h5]; simp [stream]
+
+/-- **iterators consumed in pieces, with anything in between**: one `take k` on an arbitrary
+    iterator state yields a prefix of its stream, the new iterator state carries exactly the rest,
+    and fewer than `k` items come out only if the stream is exhausted.  `lv` is any listing of the
+    levels consistent with the caches *after* the call - so the statement composes over several
+    calls with other operations interleaved (`LevelOK.pull`: consistency is inherited backwards
+    along every query). -/
+theorem iterTake_pieces (k : Nat) {s : Proc} (h : ProcInv s) (it : IterSt) {s' : Proc} {it' : IterSt}
+    {items : List NSeq} (hr : s.iterTake it k = .ok (s', it', items))
+    (lv : Nat → List NSeq) (hok : LevelOK s' lv it') :
+    stream lv it = items ++ stream lv it' ∧ items.length ≤ k ∧ (items.length < k → stream lv it' = []) := by
+  obtain ⟨h1, h2, h3, _⟩ := iterTake_stream k h it hr lv hok
+  exact ⟨h1, h2, h3⟩
+
+/-- an `of_length` iterator is a snapshot: it yields the level it was created from, whatever happens
+    to the class afterwards -/
+theorem ofLength_snapshot (k : Nat) {s : Proc} (h : ProcInv s) (ks : List NSeq) :
+    ∃ s' it' , s.iterTake (.ofLen ks) k = .ok (s', it', ks.take k) := by
+  obtain ⟨⟨s', it', items⟩, hr⟩ := iterTake_ok k h (.ofLen ks) (fun obj ho => by simp [objOf] at ho)
+  have hobj := iterTake_objOf k (.ofLen ks) hr
+  have hok : LevelOK s' (fun _ => []) it' := by
+    cases it' with
+    | ofLen _ => trivial
+    | upTo => simp [objOf] at hobj
+    | first => simp [objOf] at hobj
+  have := iterTake_take h (.ofLen ks) hr (fun _ => []) hok
+  exact ⟨s', it', by rw [hr, this]; rfl⟩
+
+/-- `first` never needs more than `k` levels for `k` items -/
+theorem firstLevels_fuel (lv : Nat → List NSeq) (f g n r : Nat) (hf : r ≤ f) (hg : r ≤ g) :
+    (firstLevels lv f n).take r = (firstLevels lv g n).take r :=
+  firstLevels_take lv f g n r hf hg
+
+/-! ## non-vacuity -/
+
+example : ValidBasis [[0,2,1]] := ⟨by decide, by decide, by decide⟩
+example : ValidBasis [[0]] := ⟨by decide, by decide, by decide⟩
+
+/-- the hypotheses are satisfiable and the conclusion is about a non-trivial level:
+    `102 ∈ Av(021)`, `021 ∉ Av(021)` -/
+example : [1,0,2] ∈ Spec.C02.level [[0,2,1]] 3 ∧ [0,2,1] ∉ Spec.C02.level [[0,2,1]] 3 := by
+  have hb : ValidBasis [[0,2,1]] := ⟨by decide, by decide, by decide⟩
+  rw [mem_level_iff hb, mem_level_iff hb]
+  constructor
+  · refine ⟨by decide, rfl, ?_⟩
+    intro p hp
+    have : p = [0,2,1] := by simpa using hp
+    subst this
+    rintro ⟨c, hc⟩
+    have := (C01.mem_spec_iff [0,2,1] [1,0,2] c).mpr hc
+    have h0 : Spec.occurrences [0,2,1] [1,0,2] = [] := by decide
+    rw [h0] at this; simp at this
+  · rintro ⟨_, _, h⟩
+    apply h [0,2,1] (by simp)
+    exact ⟨[0,1,2], (C01.mem_spec_iff [0,2,1] [0,2,1] [0,1,2]).mp (by decide)⟩
+
+/-- a history mixing two classes, a cache clear and a half-consumed iterator is well-formed -/
+example : ∀ op ∈ [POp.newClassical "a" [[0,1]], .level "a" 4, .clear, .new "c" (.classical [[0]]),
+    .iterTake (.upTo 0 0 5 []) 3, .isSubclass "a" "c"], op.WF := by
+  intro op hop
+  simp only [List.mem_cons, List.not_mem_nil, or_false] at hop
+  rcases hop with rfl | rfl | rfl | rfl | rfl | rfl
+  · intro p hp
+    have : p = [0,1] := by simpa using hp
+    subst this; decide
+  · trivial
+  · trivial
+  · exact (⟨by decide, by decide, by decide⟩ : ValidBasis [[0]])
+  · trivial
+  · trivial
+
+example : ∃ o' ks, getLevel (freshObj (.classical [[0,2,1]])) 5 = .ok (o', ks) ∧
+    ks.Perm (Spec.C02.level [[0,2,1]] 5) := by
+  obtain ⟨o', ks, h1, _, h2⟩ := getLevel_spec (freshObj (.classical [[0,2,1]]))
+    (ObjInv.fresh (b := .classical [[0,2,1]]) ⟨by decide, by decide, by decide⟩) 5
+  exact ⟨o', ks, h1, h2⟩
 
 end C02
